@@ -47,6 +47,8 @@ func init() {
 		mutant{"repeating timer ignores cancel from its callback", "timer.go",
 			"\t\t\tif t.cancelled {\n\t\t\t\tt.cancelled = false\n\t\t\t} else {\n\t\t\t\t// TODO this error should not be ignored\n\t\t\t\t_ = t.ScheduleOnce(repeat, ccb)\n\t\t\t}",
 			"\t\t\tt.cancelled = false\n\t\t\t_ = t.ScheduleOnce(repeat, ccb)", "C04-R4"},
+		mutant{"repeating wrapper disarms after a refused re-arm", "timer.go",
+			"\t\t\t} else {\n\t\t\t\t// TODO this error should not be ignored\n\t\t\t\t_ = t.ScheduleOnce(repeat, ccb)\n\t\t\t}", "\t\t\t} else if err := t.ScheduleOnce(repeat, ccb); err != nil {\n\t\t\t\t_ = t.it.Unset()\n\t\t\t}", "C04-R3"},
 		mutant{"Cancel flags only scheduled timers", "timer.go",
 			"\terr := t.it.Unset()\n\tif err == nil {\n\t\tt.cancelled = true", "\terr := t.it.Unset()\n\tif err == nil && t.state == stateScheduled {\n\t\tt.cancelled = true", "C04-R4"},
 		mutant{"interest registered although arming failed", "internal/timer_linux.go",
@@ -456,6 +458,26 @@ func runC04(c *Ctx) {
 			}
 		}
 		c.check(good, sf, "Scheduled", sf.Pos(), "reports state == stateScheduled", "Scheduled() does not report state == stateScheduled")
+	}
+
+	// who may disarm: only Cancel and Close reach the internal timer's Unset / Close. Anything else that disarms (the
+	// repeating wrapper "cleaning up" after a refused re-arm, say) cancels a schedule the user's callback has just made
+	{
+		itUnsetI := p.IfaceMethod("internal", "ITimer", "Unset")
+		itCloseI := p.IfaceMethod("internal", "ITimer", "Close")
+		for _, fn := range timerFuncs {
+			top := fn
+			for top.Parent() != nil {
+				top = top.Parent()
+			}
+			eachInstr(fn, func(in ssa.Instruction) {
+				if !(isCallToFn(in, itUnset, itClose) || isCallTo(in, itUnsetI, itCloseI)) {
+					return
+				}
+				okCaller := top == cancel || top == closeT || allCallersSatisfy(p, top, 2, func(c2 *ssa.Function) bool { return c2 == cancel || c2 == closeT })
+				c.check(okCaller, fn, "disarm", in.Pos(), "the timer is disarmed by Cancel / Close only", "the internal timer is disarmed outside Cancel and Close: a schedule made by the user's callback (the reason a re-arm was refused) is silently cancelled, while Scheduled() still reports it")
+			})
+		}
 	}
 
 	// ------------------------------------------------------------------------------------------------ R4
